@@ -700,4 +700,12 @@ theorem Shape.lenS {t : Node α} (h : Shape t) : t.data.snapped.length = t.data.
   | leaf _ _ _ hS _ _ => exact hS.1
   | branch _ _ _ hS _ _ _ _ _ => exact hS.1
 
+/-- nodes reachable from `root` through children and sub-nodes -/
+inductive Reach (root : Node α) : Node α → Prop
+  | refl : Reach root root
+  | child (d : NodeData α) (s : List (Option (Node α))) (ch : List (Nat × Node α)) (p : Nat × Node α) :
+      Reach root (.branch d s ch) → p ∈ ch → Reach root p.2
+  | sub (n m : Node α) : Reach root n → some m ∈ n.subnodes → Reach root m
+
+
 end
